@@ -31,7 +31,7 @@ impl Monitor for C07 {
         if tier == Tier::Sanitizer {
             vec!["twins_compared"]
         } else {
-            vec!["twins_compared", "inserted_random", "inserted_bitflip", "inserted_replay", "inserted_other_session", "inserted_other_addr", "inserted_oversize", "inserted_reflected_uplink", "inserted_classc", "pending_sticky", "pending_ack", "pending_adr", "join_twins_compared", "rejoin_after_earlier_session", "nb_noupdate_seen"]
+            vec!["twins_compared", "inserted_random", "inserted_bitflip", "inserted_replay", "inserted_other_session", "inserted_other_addr", "inserted_oversize", "inserted_reflected_uplink", "inserted_classc", "pending_sticky", "pending_ack", "pending_adr", "pending_full_queue", "join_twins_compared", "rejoin_after_earlier_session", "nb_noupdate_seen"]
         }
     }
 
@@ -179,6 +179,18 @@ fn data_twins(front: Front, reg: Reg, flip_bit: Option<usize>, rng: &mut Prng, c
         steps.push(Step { data: vec![2], port: 2, confirmed: false, a: Script::rx2(fr.clone()), b: Script::rx2(fr), b_may_end_early: false, note: "confirmed-downlink".into() });
         pending.push("ack");
         col.event("pending_ack");
+    }
+    // one application in three has not collected its downlinks: the device's queue (four entries
+    // here) is full when the rejected frame arrives; what it holds is compared at the end
+    let queue_full = !adr_mode && rng.chance(1, 3);
+    if queue_full {
+        for q in 0..4u8 {
+            let n = next_down(&mut fdown, &mut last);
+            let fr = net.downlink(&Down { fcnt: n, port: Some(20 + q), payload: &[q, q, q], ..Default::default() });
+            steps.push(Step { data: vec![6], port: 2, confirmed: false, a: Script::rx1(fr.clone()), b: Script::rx1(fr), b_may_end_early: false, note: "queue-filler".into() });
+        }
+        pending.push("queue");
+        col.event("pending_full_queue");
     }
     if adr_mode {
         pending.push("adr-high");
@@ -468,6 +480,34 @@ fn data_twins(front: Front, reg: Reg, flip_bit: Option<usize>, rng: &mut Prng, c
             );
             diverged = true;
             break;
+        }
+        // a full queue is looked at right after the transaction with the rejected frame (a later
+        // accepted downlink would displace an entry in both twins alike)
+        if queue_full && st.note.starts_with("insert:") {
+            let cx = ctx("queue");
+            let qa = a.take_downlinks();
+            let qb = b.take_downlinks();
+            if qa != qb {
+                col.violation(
+                    &format!("C07|twins-diverge|delivered-downlinks|{}|queue-full", sig_tail),
+                    "the downlinks waiting for the application differ between the twins after a rejected frame",
+                    json!({"ctx": cx, "queue_a": qa.iter().map(|(p, d)| format!("{}:{}", p, hex(d))).collect::<Vec<_>>(), "queue_b": qb.iter().map(|(p, d)| format!("{}:{}", p, hex(d))).collect::<Vec<_>>()}),
+                );
+                diverged = true;
+                break;
+            }
+        }
+    }
+    // what the application finds in the downlink queue afterwards
+    if !diverged {
+        let qa = a.take_downlinks();
+        let qb = b.take_downlinks();
+        if qa != qb {
+            col.violation(
+                &format!("C07|twins-diverge|delivered-downlinks|{}|{}", if front == Front::Nb { "nb" } else { "async" }, if queue_full { "queue-full" } else { "queue-not-full" }),
+                "the downlinks waiting for the application differ between the twins",
+                json!({"front": front.name(), "region": reg.name(), "history": history, "inserted": format!("{:?}", inserted_kinds), "queue_a": qa.iter().map(|(p, d)| format!("{}:{}", p, hex(d))).collect::<Vec<_>>(), "queue_b": qb.iter().map(|(p, d)| format!("{}:{}", p, hex(d))).collect::<Vec<_>>()}),
+            );
         }
     }
     col.eval(&format!("{}|{}|{}|{:?}|{:?}", front.name(), reg.name(), pending.join("+"), inserted_kinds, insertion_points));
